@@ -116,6 +116,44 @@ theorem C01_read_file (otherSub : String → String → Bool) (tr : List Ch) (e 
     simp only [onlyFamily, hmem] at hdec
     cases hdec
 
+/-- generalisation of `assumeOsTotal`: atoms whose tag starts with one of the given prefixes are total -/
+def assumeTotal (ps : List (List Char)) : Stmt → Stmt
+  | .atom tag total => .atom tag (total || ps.any (fun p => tag.toList.take p.length == p))
+  | .seq a b => .seq (assumeTotal ps a) (assumeTotal ps b)
+  | .ite a b => .ite (assumeTotal ps a) (assumeTotal ps b)
+  | .loop b => .loop (assumeTotal ps b)
+  | .try_ b hs f => .try_ (assumeTotal ps b) (assumeHs hs) (assumeTotal ps f)
+  | s => s
+where assumeHs : List (List String × Stmt) → List (List String × Stmt)
+  | [] => []
+  | (p, h) :: r => (p, assumeTotal ps h) :: assumeHs r
+
+/-- e-mail attachments (`EmailContent.iterate_supported_attachments`): iterating the attachment list,
+    `dict.get` on the MIME table and `seek(0)` on the payload `BytesIO` are taken as total (the
+    payloads are open in-memory streams built by the extractor); then whatever an attachment's
+    extractor does, only `ExtractionError` subclasses escape — every other exception is logged and
+    the next attachment is processed. -/
+def attachmentAssumptions : List (List Char) :=
+  ["next:self.attachments".toList, "stmt:MIME_TYPE_MAPPING.get".toList, "stmt:attachment.data.seek".toList]
+
+theorem attachments_decided :
+    onlyFamily (escapes root isFam none (assumeTotal attachmentAssumptions iterate_supported_attachments)) = true := by decide
+
+theorem C01_attachments (otherSub : String → String → Bool) (tr : List Ch) (e : Exn)
+    (hex : Exec (hier otherSub) isFam root none (assumeTotal attachmentAssumptions iterate_supported_attachments) tr (.raised e)) :
+    ∃ c, e = .fam c ∧ isFam c = true := by
+  obtain ⟨hwf, hmem⟩ := escapes_sound (hier_ok otherSub) hex none (by simp [CurOk]) (by intro e0 h; cases h) e rfl
+  cases e with
+  | fam c => exact ⟨c, rfl, hwf.1⟩
+  | other n =>
+    have hdec := attachments_decided
+    simp only [Abs.mem] at hmem
+    simp only [onlyFamily, hmem] at hdec
+    cases hdec
+
+/-- archive members: stronger than `member_decided` — nothing at all escapes `_process_archive_entry` -/
+theorem member_nothing_escapes : (escapes root isFam none process_archive_entry == Abs.empty) = true := by decide
+
 /-! ## CLI discipline
 
 `cli_main = argument handling ; try <everything that touches the file> except Exception: …`.
